@@ -672,6 +672,7 @@ pub fn count_classes(items: &[Item], acc: &mut crate::rt::Acc) {
     }
 }
 
+/// (No longer used by the checks since the F18 repair; kept for experiments.)
 /// Remove SGR groups that would replace one underline kind by another
 /// without a reset in between (DESIGN.md §3.3). Returns the number of groups
 /// removed. `4:0`, `0` and re-asserting the same kind are kept.
